@@ -112,13 +112,13 @@ class Event:
         self.tag = tag
         self.epoch = epoch
         self.core = core
-        self.operands = operands  # tuple of (mode, logical root name, physical serial, first row, rows)
+        self.operands = operands  # tuple of (mode, logical root name, physical serial, first row, rows, via subview)
         self.in_terms = in_terms  # tuple (per read operand) of tuple of terms
         self.n = n
 
     def cov_key(self):
         """(tag, index-dependent operands) with the copies of a duplicated buffer identified"""
-        return (self.tag, tuple((m, name, off, n) for (m, name, _s, off, n) in self.operands))
+        return (self.tag, tuple((o[0], o[1], o[3], o[4]) for o in self.operands))
 
     def flow_key(self):
         return (self.tag, self.in_terms)
@@ -223,7 +223,7 @@ class C15Machine(Machine):
                     ods.append(self._od("r", m))
                 else:
                     in_terms.append(("scalar", m))
-                    ods.append(("s", m, 0, 0, 0))
+                    ods.append(("s", m, 0, 0, 0, False))
             olds = []
             for m in outs:
                 if rw:
@@ -243,7 +243,7 @@ class C15Machine(Machine):
 
     @staticmethod
     def _od(mode, m: Mem):
-        return (mode, m.root.name, m.root.serial, m.off, m.n)
+        return (mode, m.root.name, m.root.serial, m.off, m.n, m.view)
 
     def close_epoch(self):
         """rows written by both cores inside the epoch just ended hold an interleaving-dependent value"""
